@@ -1,7 +1,7 @@
 (* Judges for histories of anchored operations (C01, C02, C09, C12). *)
 From Coq Require Import ZArith String List Bool.
 From Sidetree Require Import Base.GoInt Json.Json Sidetree.Protocol Sidetree.Window Sidetree.Composer
-     Sidetree.Applier Harness.Runner.
+     Sidetree.Applier Sidetree.Resolve Harness.Runner Harness.PatchCases.
 Import ListNotations.
 Open Scope string_scope.
 
@@ -16,7 +16,8 @@ Record hstep := mk_hstep {
   hs_impl : option rmodel;            (* Apply's result; None = error *)
   hs_intact : bool;                   (* inputs deep-equal before/after, no state with an error *)
   hs_seen : option (Z * Z);           (* arguments received by the time validator (non-batch parse) *)
-  hs_parser_refused : bool
+  hs_parser_refused : bool;
+  hs_bytes : option (protocol * url_table * string)   (* per-step protocol, net/url oracle, request bytes *)
 }.
 
 Record hcase := mk_hcase {
@@ -91,6 +92,16 @@ Section Judge.
             (* the mirror is proved equal to the spec (run_refines_spec), so a disagreement with
                the implementation on these observables is a spec failure of the implementation *)
             if negb (opt_rm_equiv m (hs_impl s)) then SpecFail (100 * idx) else
+            (* byte level: the model derives the view from the request bytes itself (parser mirror,
+               Gallina SHA-2); only the primitive signature verdict is taken from the label *)
+            let byte_ok :=
+              match hs_bytes s with
+              | None => true
+              | Some (scfg, t, bytes) =>
+                  opt_rm_equiv (apply_bytes scfg (uri_ok_of t) (url_norm_of t) (a_type a) bytes (v_sig_ok (a_view a))
+                                            (a_time a) (a_num a) (a_ver a) (a_canon a) (a_equiv a) rm) (hs_impl s)
+              end in
+            if negb byte_ok then Mismatch (100 * idx + 50) else
             walk cfg (match m with Some r => r | None => rm end) (S idx) rest
         end
     end.
